@@ -1087,6 +1087,12 @@ class CSemantics:
             self.error("Expected lvalue", location)
         # TODO: handle qualifiers?
 
+        if not base.typ.is_complete:
+            self.error(
+                f"Member access into incomplete type {type_to_str(base.typ)}",
+                location,
+            )
+
         if not self.context.has_field(base.typ, field_name):
             valid_field_names = base.typ.get_field_names()
             hint = f"This type has those fields: {valid_field_names}"
